@@ -99,7 +99,11 @@ impl HttpRangeRequest {
                     Err(err) => return Poll::Ready(Some(Err(HttpReaderError::from(err)))),
                 },
                 RequestState::Stream(stream) => match ready!(stream.poll_next_unpin(cx)) {
-                    Some(Ok(item)) => {
+                    Some(Ok(mut item)) => {
+                        // A server may send more than the range asked for; never pass that on.
+                        if item.len() as u64 > self.size {
+                            item.truncate(self.size as usize);
+                        }
                         self.offset += item.len() as u64;
                         self.size -= item.len() as u64;
                         return Poll::Ready(Some(Ok(item)));
